@@ -80,7 +80,7 @@ def value_sets() -> Dict[str, List[Any]]:
     big = "x" * (1 << 20)
     return {
         "k_str": ["", "héllo wörld ü中\n", big],
-        "k_str2": ["second", "a|b", "\x00nul"],
+        "k_str2": ["line1\r\nline2\rline3\n", "a|b\r", "\x00nul\r\n"],
         "k_bytes": [b"", b"\x00\xff\x80abc", bytes(range(256)) * 4096],
         "k_none": [None, None, None],
         "k_obj": [("t", 1, 2.5), {"k": [1, 2, {"z": None}]}, PlainObj([1, "ü"])],
@@ -312,7 +312,7 @@ def run_c17(tier: str) -> int:
 
 
 def _e2e_str():
-    return "text ü中\nline2"
+    return "text ü中\nline2\r\nline3\r"
 
 
 def _e2e_bytes():
